@@ -231,7 +231,7 @@ theorem invA_capMap {c : Cfg} {s s' : State} {t : Nat} {sent : Bool} (hi : InvA 
 theorem invA_step {c : Cfg} {s s' : State} {t : Nat} {l : Label} (hi : InvA c s) (h : step c s t l = some s') :
     InvA c s' := by
   cases l <;> simp only [step] at h
-  case call op => inva_step hi h stepCall c t
+  case call op a => inva_step hi h stepCall c t
   case advance d => simp at h; subst h; exact ⟨hi.fresh, hi.domNodup, hi.domCover, hi.acct, hi.clean⟩
   case read => inva_step hi h stepRead c t
   case insMap => inva_step hi h stepInsMap c t
